@@ -1333,6 +1333,7 @@ package goatlang
 //@   ensures#next v.frame.N == old(v.frame.N) || v.frame.N == old(v.frame.N) + int(old(ins(v)).C)
 //@ func (*VM).exec case codeMake
 //@   property C07 C11
+//@   reveal valid
 //@   requires need(v, 1)
 //@   ensures#delta len(v.stack) == old(len(v.stack))
 //@   ensures#frame keeps(v, len(v.stack) - 1)
@@ -1341,7 +1342,7 @@ package goatlang
 //@   invariant 0 <= j && j <= l && len(s) == l
 //@   invariant v.frame == old(v.frame) && v.stack == old(v.stack) && v.globals == old(v.globals) && len(v.backtrace) == old(len(v.backtrace))
 //@   invariant forall q int :: 0 <= q && q < len(v.stack) ==> v.stack[q] == old(v.stack[q])
-//@   invariant forall q int :: 0 <= q && q < j ==> s[q] == newZero(Type(i.A))
+//@   invariant forall q int :: 0 <= q && q < j ==> s[q] == newZero(Type(i.A)) && valid(s[q])
 //@ func (*VM).exec case codeStruct
 //@   property C07
 //@   requires int(ins(v).A) >= 0 && need(v, int(ins(v).A))
